@@ -48,6 +48,11 @@ func famC14(g *Gen, o *Out, n int, thorough bool) {
 		roots, bs, ver, dp, arch, _ := genArchive(g, maxB)
 		o.HashBlocks(bs)
 		ro := defaultReadOpts()
+		if c >= 6 && g.pick(4) == 0 {
+			// a section limit some blocks exceed (and a header limit that is far above it): Next and SkipNext
+			// apply the same limit to a section
+			ro.ms = uint64(60 + g.pick(100))
+		}
 		nch := 3
 		if thorough {
 			nch = 12
@@ -109,7 +114,11 @@ func famC14(g *Gen, o *Out, n int, thorough bool) {
 				os.WriteFile(tmpPath("c14-current-case.txt"), []byte(fmt.Sprintf("walk kind=%s ver=%d ch=%s arch=%x\n", kind, ver, choices, arch)), 0o644)
 				res := runChoices(src, ro, choices)
 				if count != nil {
-					res += fmt.Sprintf(" consumed=%d", count())
+					if strings.HasSuffix(res, "end=eof") {
+						res += fmt.Sprintf(" consumed=%d", count())
+					} else {
+						res += fmt.Sprintf(" _consumed=%d", count())
+					}
 					if ver == 2 {
 						end := int(leU64(arch[27:35]) + leU64(arch[35:43]))
 						res += fmt.Sprintf(" over=%d", b2i(count() > end))
